@@ -1,11 +1,13 @@
 """C19 - string and regex functions agree with their reference model."""
 from vlib.pyvc.unit import contract_unit
+from props._common import frame_unit
 from contracts import strings, regex
 
 TECHNIQUE = ('contract-based deductive verification: sidecar pre/post '
              'contracts on the real functions, VCs generated from the source '
              'AST on every run (pyvc), discharged by z3 (cvc5 on unknown); '
-             'loop invariants + ghost write log for _publish_match')
+             'loop invariants + ghost write log for _publish_match; frame '
+             'obligations (no hidden state between calls) for both modules')
 ASSUMPTIONS = [
     'A3: strings are sequences of code points; str methods upper/lower/'
     'strip/split/replace/join are uninterpreted (T-str): only argument '
@@ -17,7 +19,8 @@ ASSUMPTIONS = [
 
 
 def units(ctx):
-    us = []
+    # results are functions of the arguments alone: no module-level state
+    us = [frame_unit('C19')]
     for c in strings.contracts():
         if 'C19' in c.serves:
             us.append(contract_unit(c))
